@@ -78,6 +78,13 @@ def plan(tier, base_seed):
     n = {"quick": 300, "thorough": 400000}[tier]
     for k in range(n):
         jobs.append({"seed": base_seed * 1000003 + 500000 + k})
+    # an unprotected record (alert / CCS / data / handshake) in the middle
+    # of the protected stream, every cell
+    for c in cells:
+        for rep in range(4 if tuple(c[1]) == (3, 4) else 1):
+            jobs.append({"seed": base_seed * 1000003 + 600000 + i, "cell": c,
+                         "fam": "inject_mid"})
+            i += 1
     # forgeries inside the protected part of the handshake, every cell
     for r in range({"quick": 1, "thorough": 20}[tier]):
         for c in cells:
@@ -312,10 +319,15 @@ def run(job, streams=None):
 
     # ---- draw the tamper
     kind = WEIGHTED[ch.draw(len(WEIGHTED), "t.kind")]
+    if job.get("fam") == "inject_mid":
+        kind = "inject_plain"
     t = {"dir": dirn, "kind": kind}
     # never the last record: an honest record must follow so that the
     # receiver is still reading when the forgery arrives
     tgt = app_idx[ch.draw(len(app_idx) - 1, "t.idx")]
+    if job.get("fam") == "inject_mid" and len(app_idx) > 2:
+        # an unprotected record in the MIDDLE of a key epoch
+        tgt = app_idx[1 + ch.draw(len(app_idx) - 2, "t.idx")]
     body_len = len(lay[tgt][2])
     need_follow = False
     extra_ops = None
